@@ -2286,3 +2286,49 @@ func ruleConflictStubAndBudget(c *Ctx) {
 	}
 	c.Floor("witness budget computations outside admission", n, 1)
 }
+
+// ---------------------------------------------------------------------------
+// cache-latest (C01, C02): RoleManagement keeps its node lists in storage under the height from which they are in force
+// (a designation made in block N is stored under N+1) and caches, per role, the *latest* record. A running node's cache
+// always holds the latest one because DesignateAsRole refreshes it after every write. The cache a restarted, reset or
+// state-jumped node rebuilds must be the same: whatever fills a DesignationCache field from storage asks for the
+// newest record (index MaxUint32), never for "the record in force at the current height" - that misses a designation
+// made in the very block the node restarted at, and the two nodes answer getDesignatedByRole differently from the
+// next block on.
+func ruleCacheLatest(c *Ctx) {
+	n := 0
+	for _, fd := range c.P.AllFuncDecls() {
+		if fd.Decl.Body == nil || pkgRel(fd.Pkg.Types) != "pkg/core/native" {
+			continue
+		}
+		f := c.P.NewFuncCFG(fd)
+		sites := f.CallSites("pkg/core/native.(*Designate).getDesignatedByRoleFromStorage")
+		if len(sites) == 0 {
+			continue
+		}
+		// does this function fill the cache? (writes a field of roleData / DesignationCache)
+		fills := false
+		for _, w := range nodeWrites(fd.Pkg.TypesInfo, fd.Decl.Body, true) {
+			if w.Field == "pkg/core/native#nodes" || w.Field == "pkg/core/native#addr" || w.Field == "pkg/core/native#height" {
+				fills = true
+			}
+		}
+		if !fills {
+			continue
+		}
+		for _, st := range sites {
+			if len(st.call.Args) < 3 {
+				continue
+			}
+			n++
+			key := fmt.Sprintf("cache-latest.%s#%d", FuncKey(fd.Obj), n)
+			tv, ok := fd.Pkg.TypesInfo.Types[st.call.Args[2]]
+			if ok && tv.Value != nil && tv.Value.String() == "4294967295" {
+				c.OK(key, c.P.Pos(st.call.Pos()), "the cache is filled with the newest record (index MaxUint32)")
+			} else {
+				c.Fail(key, c.P.Pos(st.call.Pos()), fmt.Sprintf("%s fills the RoleManagement cache with the record in force at `%s` instead of the newest one: a node that rebuilds its cache at the height of a block containing a designation keeps the old node list, while the node that executed that block already caches the new one", FuncKey(fd.Obj), trunc(types.ExprString(st.call.Args[2]), 40)))
+			}
+		}
+	}
+	c.Floor("storage lookups that fill the RoleManagement cache", n, 1)
+}
